@@ -14,3 +14,4 @@ for id in $ids; do
   echo "$id rc=$rc $(grep -c '^VIOLATION' /tmp/seedsuite_$id.log) violation line(s) $(grep '^VIOLATION' /tmp/seedsuite_$id.log | head -1 | sed 's/.*replay\///' | cut -c1-80) $(grep '^UNDECIDED' /tmp/seedsuite_$id.log | head -1 | cut -c1-120)"
 done
 git -C /repo worktree remove --force $W
+rm -rf /verif/build/scratch_tmp_seedsuite_wt
